@@ -98,7 +98,7 @@ def check_etcd(prop, tier, seed):
             G = dict(OpKinds={"create", "update", "delete"}, ExpKinds={"zero", "cur", "stale"})
             hist2 = seq_gen(work, dict(SEQ_CONSTS, MaxOps=5 if quick else 7, **G), seed, n, name="genh2")
             hist3 = seq_gen(work, dict(SEQ_CONSTS, Keys={1, 2, 3}, MaxOps=5, **G), seed + 1, n // 2, name="genh3")
-            flags = ["-seed", str(seed), "-frac", "0.03" if quick else "0.1", "-finalfrac", "0.3" if quick else "0.6", "-api", "etcd"]
+            flags = ["-seed", str(seed), "-frac", "0.03" if quick else "0.1", "-finalfrac", "0.3" if quick else "0.6", "-api", "etcd", "-readfaults"]
             alltr = []
             for title, behs in (("2 keys", hist2), ("3 keys", hist3)):
                 rp, trs, _ = seqrun(work, binp, behs, "memkv,badger,tikv,metrics", 16, flags)
